@@ -28,7 +28,7 @@ def parseStage (m : List (String × String)) : Stage :=
     | "dft" => Kind.dft
     | _ => Kind.clocked
   { cfg := { kind := kind, prePost := getNat m "prePost", den := getNat m "den", step := getNat m "step",
-             poly0 := getNat m "poly0" == 1, L := getNat m "L", dftLen := getNat m "dftLen",
+             poly0 := getNat m "poly0" == 1, taps := getNat m "taps", L := getNat m "L", dftLen := getNat m "dftLen",
              numTaps := getNat m "numTaps", M := getInt m "M" },
     st := { occ := getNat m "preload", clk := getNat m "clk", remM := getNat m "remM", isz := getNat m "isz" } }
 
